@@ -177,3 +177,27 @@ def c20_layout(ctx, dim, shape):
         fwd = ix.matrixToCartesianIndexing(ix.cartesianToMatrixIndexing(c2), 2)
         ctx.ensure("matrixToCartesianIndexing(cartesianToMatrixIndexing(c)) is c",
                    fwd.shape == c2.shape and all((p is q) if ctx.sym else (p == q) for p, q in zip(fwd.flat, c2.flat)))
+
+
+@ob("C20.layout_payload", cases=[dict(dim=d, shape=s, trailing=t) for d in (1, 2, 3) for s in ({1: [(3,)], 2: [(2, 3), (1, 2)], 3: [(2, 3, 2), (1, 2, 3), (2, 2, 2)]}[d]) for t in ((2,), (3,), (1,), (2, 2))],
+    mods=MODS, funcs=FUNCS, samples=(1, 2),
+    cite="the array re-indexing helpers between matrix and Cartesian layout ... place each voxel where the coordinate system says it is (vector-valued, colour and time-series arrays: "
+         "the payload axes stay behind the spatial ones)",
+    note="the same helper on arrays with trailing non-spatial axes must re-index the spatial axes exactly as it does for a scalar array and leave the payload of each voxel in place "
+         "(after seed C20_g: an axis moved to the LAST position instead of the last SPATIAL position)")
+def c20_layout_payload(ctx, dim, shape, trailing):
+    arr = ctx.array("a", tuple(shape) + tuple(trailing))
+    got = ix.matrixToCartesianIndexing(arr, dim)
+    # reference: the helper applied to every payload component separately (scalar arrays: covered by C20.layout)
+    ref = None
+    for t in np.ndindex(*trailing):
+        comp = ix.matrixToCartesianIndexing(arr[(Ellipsis,) + t], dim)
+        if ref is None:
+            ref = np.empty(tuple(comp.shape) + tuple(trailing), dtype=object)
+        ref[(Ellipsis,) + t] = comp
+    ctx.ensure("spatial axes re-indexed as for a scalar array, payload axes untouched and trailing", tuple(got.shape) == tuple(ref.shape))
+    if tuple(got.shape) == tuple(ref.shape):
+        ctx.ensure("every (voxel, payload component) lands where the scalar helper puts that voxel", all((p is q) if ctx.sym else (p == q) for p, q in zip(got.flat, ref.flat)))
+    if dim == 2:
+        back = ix.cartesianToMatrixIndexing(got)
+        ctx.ensure("cartesianToMatrixIndexing inverts it (2-D) with payload axes", back.shape == arr.shape and all((p is q) if ctx.sym else (p == q) for p, q in zip(back.flat, arr.flat)))
